@@ -424,6 +424,8 @@ class Interp:
                 if 'tuplit' in x.flags:
                     return TypeV('type(<tuple literal>)', kclass=kclass_of_real(tuple), flags=['typeof_literal'])
             raise Undecided(f"type({x!r})")
+        if fname in ('builtins.tuple', 'builtins.list') and len(args) == 1 and isinstance(args[0], (tuple, list)):
+            return tuple(args[0])
         if fname == 'builtins.len':
             if isinstance(args[0], tuple):
                 return len(args[0])
@@ -652,6 +654,8 @@ class Interp:
             for tg in st.targets:
                 if isinstance(tg, ast.Name):
                     env[tg.id] = v
+                elif isinstance(tg, ast.Subscript):
+                    continue      # a store into a table does not influence the rest of this walk (who-may-write is C10's rule)
                 else:
                     raise Undecided(f"assignment target {unparse(tg)}")
             return
